@@ -1,3 +1,426 @@
-From MV Require Import Base Inject.
-Theorem C20_stub : True. Proof. exact I. Qed.
-Print Assumptions C20_stub.
+(** C20 — drift injectors change only the window and columns they are asked to change.
+    Statements only; proofs are in Inject_Proofs.v and Inject_Q.v.  The model is Inject.v.
+    Vocabulary (Inject_Proofs.v): [cell d i j] / [nth_error d i] = cell / row of the data set by
+    position, [shape d] = list of the row lengths, [inw from to i] = row [i] lies in
+    [from_index, to_index).  Every theorem holds for every data set (any number of rows, ragged or
+    not), every window (any integers, also empty, reversed or reaching past the data) and every
+    column index unless a hypothesis says otherwise. *)
+From MV Require Import Base Num Inject Inject_Proofs Inject_Q.
+From Coq Require Import QArith.
+Local Open Scope Z_scope.
+
+(** ** 1. same shape *)
+Theorem C20_shape_preserved :
+  forall (N : Num) (mean : list (F N) -> F N) (eqb ltb : F N -> F N -> bool)
+         (from to c1 c2 : Z) (k1 k2 k3 sf alpha x0 : F N) (signs positions : list Z)
+         (d : list (list (F N))),
+  shape (feature_swap from to c1 c2 d) = shape d /\
+  shape (label_swap eqb from to c1 k1 k2 d) = shape d /\
+  shape (label_join eqb from to c1 k1 k2 k3 d) = shape d /\
+  shape (feature_shift N mean from to c1 sf alpha d) = shape d /\
+  shape (brownian N from to c1 x0 signs d) = shape d /\
+  length (resample eqb ltb f0 from to c1 positions d) = length d.
+Proof.
+  intros. repeat split.
+  - apply shape_feature_swap.
+  - apply shape_col_update.
+  - apply shape_col_update.
+  - apply shape_col_update.
+  - apply shape_col_update.
+  - apply length_resample.
+Qed.
+
+(** resampling keeps a rectangular data set rectangular (draws inside the pool) *)
+Theorem C20_resample_shape :
+  forall (A : Type) (eqb ltb : A -> A -> bool) (dflt : A) (w : nat) from to col positions d,
+  positions_ok (pool eqb ltb dflt from to col d) positions -> rect w d ->
+  rect w (resample eqb ltb dflt from to col positions d) /\
+  length (resample eqb ltb dflt from to col positions d) = length d.
+Proof. intros. split; [now apply resample_rect|apply length_resample]. Qed.
+
+(** ** 2. frame: rows outside the window *)
+Theorem C20_rows_outside_window_unchanged :
+  forall (N : Num) (mean : list (F N) -> F N) (eqb ltb : F N -> F N -> bool)
+         (from to c1 c2 : Z) (k1 k2 k3 sf alpha x0 : F N) (signs positions : list Z)
+         (d : list (list (F N))) (i : nat),
+  inw from to i = false ->
+  nth_error (feature_swap from to c1 c2 d) i = nth_error d i /\
+  nth_error (label_swap eqb from to c1 k1 k2 d) i = nth_error d i /\
+  nth_error (label_join eqb from to c1 k1 k2 k3 d) i = nth_error d i /\
+  nth_error (feature_shift N mean from to c1 sf alpha d) i = nth_error d i /\
+  nth_error (brownian N from to c1 x0 signs d) i = nth_error d i /\
+  nth_error (resample eqb ltb f0 from to c1 positions d) i = nth_error d i.
+Proof.
+  intros. repeat split.
+  - now apply on_window_outside.
+  - now apply col_update_rows_outside.
+  - now apply col_update_rows_outside.
+  - now apply col_update_rows_outside.
+  - now apply col_update_rows_outside.
+  - now apply resample_outside.
+Qed.
+
+(** ** 3. frame: untargeted columns (every row, inside the window as well) *)
+Theorem C20_untargeted_columns_unchanged :
+  forall (N : Num) (mean : list (F N) -> F N) (eqb : F N -> F N -> bool)
+         (from to c1 c2 : Z) (k1 k2 k3 sf alpha x0 : F N) (signs : list Z)
+         (d : list (list (F N))) (i j : nat),
+  Z.of_nat j <> c1 ->
+  (Z.of_nat j <> c2 -> cell (feature_swap from to c1 c2 d) i j = cell d i j) /\
+  cell (label_swap eqb from to c1 k1 k2 d) i j = cell d i j /\
+  cell (label_join eqb from to c1 k1 k2 k3 d) i j = cell d i j /\
+  cell (feature_shift N mean from to c1 sf alpha d) i j = cell d i j /\
+  cell (brownian N from to c1 x0 signs d) i j = cell d i j.
+Proof.
+  intros. repeat split.
+  - intro. apply feature_swap_frame. now right.
+  - apply col_update_frame. now right.
+  - apply col_update_frame. now right.
+  - apply col_update_frame. now right.
+  - apply col_update_frame. now right.
+Qed.
+
+(** ** 4. FeatureSwapInjector *)
+Theorem C20_feature_swap_involution :
+  forall (A : Type) from to c1 c2 (d : list (list A)),
+  feature_swap from to c1 c2 (feature_swap from to c1 c2 d) = d.
+Proof. exact @feature_swap_involutive. Qed.
+
+Theorem C20_feature_swap_effect :
+  forall (A : Type) from to (c1 c2 : nat) (d : list (list A)) i r,
+  nth_error d i = Some r -> inw from to i = true -> (c1 < length r)%nat -> (c2 < length r)%nat ->
+  cell (feature_swap from to (Z.of_nat c1) (Z.of_nat c2) d) i c1 = nth_error r c2 /\
+  cell (feature_swap from to (Z.of_nat c1) (Z.of_nat c2) d) i c2 = nth_error r c1.
+Proof. exact @feature_swap_effect. Qed.
+
+(** ** 5. LabelSwapInjector / LabelJoinInjector *)
+
+(** cells compared by a decidable equality (ints, strings, non-NaN floats without -0.0) *)
+Theorem C20_label_swap_involution :
+  forall (A : Type) (eqb : A -> A -> bool), (forall x y, eqb x y = true <-> x = y) ->
+  forall from to col c1 c2 d,
+  label_swap eqb from to col c1 c2 (label_swap eqb from to col c1 c2 d) = d.
+Proof. exact @label_swap_involutive. Qed.
+
+(** IEEE [==] is only a partial equivalence: the second swap restores every cell up to [==],
+    provided the two class values equal themselves (are not NaN) *)
+Theorem C20_label_swap_involution_partial_equivalence :
+  forall (A : Type) (eqb : A -> A -> bool),
+  (forall x y, eqb x y = true -> eqb y x = true) ->
+  (forall x y z, eqb x y = true -> eqb y z = true -> eqb x z = true) ->
+  forall from to col c1 c2 d i j x, eqb c1 c1 = true -> eqb c2 c2 = true ->
+  cell d i j = Some x ->
+  exists y, cell (label_swap eqb from to col c1 c2 (label_swap eqb from to col c1 c2 d)) i j = Some y /\
+            (y = x \/ eqb y x = true).
+Proof.
+  intros A eqb Sy Tr from to col c1 c2 d i j x R1 R2 Hc.
+  rewrite !label_swap_is_col_update, col_update_twice, cell_col_update, Hc. simpl.
+  destruct (inw from to i && (Z.of_nat j =? col)).
+  - eexists. split; [reflexivity|]. now apply label_swap_cell_involutive_per.
+  - exists x. auto.
+Qed.
+
+Theorem C20_label_swap_exchanges_the_two_classes :
+  forall (A : Type) (eqb : A -> A -> bool), (forall x y, eqb x y = true <-> x = y) ->
+  forall from to col c1 c2 d i j x,
+  cell d i j = Some x -> inw from to i = true -> Z.of_nat j = col ->
+  exists y, cell (label_swap eqb from to col c1 c2 d) i j = Some y /\
+            (x = c2 -> y = c1) /\ (x = c1 -> x <> c2 -> y = c2) /\ (x <> c1 -> x <> c2 -> y = x).
+Proof.
+  intros A eqb S from to col c1 c2 d i j x Hc Hw Hj.
+  exists (label_swap_cell eqb c1 c2 x). split.
+  - rewrite label_swap_is_col_update.
+    now apply (col_update_effect from to col (fun _ => label_swap_cell eqb c1 c2) d i j x).
+  - now apply label_swap_cell_spec.
+Qed.
+
+Theorem C20_label_join_maps_the_two_classes :
+  forall (A : Type) (eqb : A -> A -> bool), (forall x y, eqb x y = true <-> x = y) ->
+  forall from to col c1 c2 cnew d i j x,
+  cell d i j = Some x -> inw from to i = true -> Z.of_nat j = col ->
+  exists y, cell (label_join eqb from to col c1 c2 cnew d) i j = Some y /\
+            (x = c1 \/ x = c2 -> y = cnew) /\ (x <> c1 -> x <> c2 -> y = x).
+Proof.
+  intros A eqb S from to col c1 c2 cn d i j x Hc Hw Hj.
+  exists (label_join_cell eqb c1 c2 cn x). split.
+  - rewrite label_join_is_col_update.
+    now apply (col_update_effect from to col (fun _ => label_join_cell eqb c1 c2 cn) d i j x).
+  - now apply label_join_cell_spec.
+Qed.
+
+(** ** 6. FeatureShiftInjector: every window cell of the column gets
+       [x + (alpha + mean(window column)) * shift_factor]; [mean] is whatever np.mean returns *)
+Theorem C20_shift_effect :
+  forall (N : Num) (mean : list (F N) -> F N) from to col sf alpha (d : list (list (F N))) i j x,
+  cell d i j = Some x -> inw from to i = true -> Z.of_nat j = col ->
+  cell (feature_shift N mean from to col sf alpha d) i j =
+  Some (fadd x (fmul (fadd alpha (mean (column f0 col (win_rows from to d)))) sf)).
+Proof.
+  intros. rewrite feature_shift_is_col_update.
+  now apply (col_update_effect from to col (fun _ y => fadd y (shift_delta N mean from to col sf alpha d)) d i j x).
+Qed.
+
+(** ... where the window is the slice [d[from:to]] *)
+Theorem C20_window_is_slice :
+  forall (A : Type) from to (d : list (list A)),
+  0 <= from ->
+  win_rows from to d = firstn (Z.to_nat (to - from)) (skipn (Z.to_nat from) d) /\
+  (forall r, In r (win_rows from to d) <-> exists n, nth_error d n = Some r /\ inw from to n = true).
+Proof. intros. split; [now apply win_rows_slice|intro; apply in_win_rows]. Qed.
+
+(** ** 7. BrownianNoiseInjector: the k-th window cell gets [x + w_k] with [w_0 = x0] and
+       [w_(k+1) = w_k + s_k / sqrt(to - from)], [s_k] the k-th drawn sign *)
+Theorem C20_brownian_effect :
+  forall (N : Num) from to col x0 signs (d : list (list (F N))) (k j : nat) x,
+  0 <= from -> to - from - 1 <= len signs -> Z.of_nat k < to - from ->
+  cell d (Z.to_nat from + k) j = Some x -> Z.of_nat j = col ->
+  cell (brownian N from to col x0 signs d) (Z.to_nat from + k) j =
+  Some (fadd x (walk_at N (fsqrt (fofZ (to - from))) x0 signs k)).
+Proof. exact brownian_effect. Qed.
+
+Theorem C20_brownian_walk :
+  forall (N : Num) st x0 signs,
+  walk_at N st x0 signs 0 = x0 /\
+  forall k s, nth_error signs k = Some s ->
+    walk_at N st x0 signs (S k) = fadd (walk_at N st x0 signs k) (fdiv (fofZ s) st).
+Proof. intros. split; [reflexivity|intros; now apply walk_at_S]. Qed.
+
+(** ** 8. LabelProbabilityInjector: rows *)
+Theorem C20_resampled_rows_come_from_the_window :
+  forall (A : Type) (eqb ltb : A -> A -> bool) (dflt : A) from to col positions d n r',
+  positions_ok (pool eqb ltb dflt from to col d) positions ->
+  inw from to n = true ->
+  nth_error (resample eqb ltb dflt from to col positions d) n = Some r' ->
+  In r' (win_rows from to d).
+Proof. exact @resample_rows_from_window. Qed.
+
+(** what the code does exactly: window row [n] becomes row [pool[positions[n - from]]] *)
+Theorem C20_resampled_row_exact :
+  forall (A : Type) (eqb ltb : A -> A -> bool) (dflt : A) from to col positions d n r,
+  pool eqb ltb dflt from to col d <> [] ->
+  nth_error d n = Some r -> inw from to n = true ->
+  nth_error (resample eqb ltb dflt from to col positions d) n =
+  Some (nthZ (Z.of_nat n - from)
+             (take_rows (sample_idxs (pool eqb ltb dflt from to col d) positions) d) r).
+Proof. exact @resample_row. Qed.
+
+(** the sampling pool: exactly window rows; every window row with a self-equal label is in it *)
+Theorem C20_sampling_pool :
+  forall (A : Type) (eqb ltb : A -> A -> bool) (dflt : A) from to col d,
+  (forall i, In i (pool eqb ltb dflt from to col d) ->
+     exists n r, i = Z.of_nat n /\ nth_error d n = Some r /\ inw from to n = true) /\
+  (forall n r, nth_error d n = Some r -> inw from to n = true ->
+     eqb (nthZ col r dflt) (nthZ col r dflt) = true ->
+     exists c, In c (np_unique eqb ltb (column dflt col d)) /\ eqb (nthZ col r dflt) c = true /\
+               In (Z.of_nat n) (pool eqb ltb dflt from to col d)).
+Proof.
+  intros. split.
+  - intros i Hi. eapply in_grouped; eauto.
+  - intros n r Hr Hw Hrefl.
+    destruct (np_unique_covers eqb ltb (column dflt col d) (nthZ col r dflt)) as [c [Hc He]]; auto.
+    + unfold column. apply in_map_iff. exists r. split; auto. eapply nth_error_In; eauto.
+    + exists c. repeat split; auto. eapply grouped_complete; eauto.
+Qed.
+
+(** ** 9. LabelProbabilityInjector: the probability vector, exactly (rationals) *)
+Theorem C20_probability_vector_sums_to_one :
+  forall pcs : list (Q * Z), p_blocks NumQ pcs <> [] -> (qsum (p_final NumQ pcs) == 1)%Q.
+Proof. exact p_final_sums_to_one. Qed.
+
+(** one block per class; a class with [cnt > 0] rows in the window and requested probability [P]
+    gets the mass [P + cnt * leftover], each of its rows the same share; the leftover is the mass
+    requested for classes that do not occur in the window, spread evenly over the window rows *)
+Theorem C20_probability_class_mass :
+  forall pcs : list (Q * Z),
+  let lo := p_leftover NumQ (p_blocks NumQ pcs) in
+  p_final NumQ pcs =
+    flat_map (fun pc => repeat (p_individual NumQ (fst pc) (snd pc) + lo)%Q (Z.to_nat (snd pc))) pcs /\
+  (lo == (1 - present_mass pcs) / inject_Z (total_count pcs))%Q /\
+  forall P cnt, 0 < cnt ->
+    (p_individual NumQ P cnt == P / inject_Z cnt)%Q /\
+    (qsum (repeat (p_individual NumQ P cnt + lo)%Q (Z.to_nat cnt)) == P + inject_Z cnt * lo)%Q.
+Proof.
+  intro pcs. cbv zeta. split; [apply p_final_blocks|]. split; [apply p_leftover_value|].
+  intros P cnt H. split; [now apply p_individual_value|now apply block_mass].
+Qed.
+
+(** when the classes present in the window carry the whole requested mass, every present class
+    gets exactly its requested probability *)
+Theorem C20_probability_class_mass_exact :
+  forall (pcs : list (Q * Z)) P cnt, 0 < cnt -> (present_mass pcs == 1)%Q ->
+  let lo := p_leftover NumQ (p_blocks NumQ pcs) in
+  (lo == 0)%Q /\ (qsum (repeat (p_individual NumQ P cnt + lo)%Q (Z.to_nat cnt)) == P)%Q.
+Proof. exact block_mass_exact. Qed.
+
+(** in the real call the blocks lie over the blocks of the sampling pool, class by class *)
+Theorem C20_probability_blocks_over_pool :
+  forall from to col all (cp : dict NumQ) d,
+  p_blocks NumQ (class_table NumQ from to col all cp d) =
+    flat_map (fun c => repeat (p_individual NumQ (match lookup NumQ c cp with Some v => v | None => 0%Q end)
+                                            (len (cls_idx Qeq_bool 0%Q from to col c d)))
+                              (length (cls_idx Qeq_bool 0%Q from to col c d))) all /\
+  grouped Qeq_bool 0%Q from to col all d = flat_map (fun c => cls_idx Qeq_bool 0%Q from to col c d) all /\
+  length (p_blocks NumQ (class_table NumQ from to col all cp d)) =
+  length (grouped Qeq_bool 0%Q from to col all d).
+Proof.
+  intros. split; [apply p_blocks_class_table|]. split; [reflexivity|apply length_p_blocks_class_table].
+Qed.
+
+(** completion of the dictionary: specified classes keep their value, the others share the rest *)
+Theorem C20_dictionary_completion :
+  forall (all : list Q) (cp cp' : dict NumQ),
+  fill_probabilities NumQ all cp = Some cp' ->
+  let undef := undefined_classes NumQ all cp in
+  (qsum (map snd cp) <= 1)%Q /\
+  (forall k v, In (k, v) cp -> exists c, In c all /\ (k == c)%Q) /\
+  (forall k v, lookup NumQ k cp = Some v -> lookup NumQ k cp' = Some v) /\
+  (forall k, In k undef ->
+     lookup NumQ k cp' = Some ((1 - qsum (map snd cp)) / inject_Z (len undef))%Q).
+Proof. exact fill_probabilities_spec. Qed.
+
+(** ** 10. FeatureCoverInjector (given a legal answer of pandas' group sampling) *)
+Theorem C20_cover :
+  forall (A : Type) (eqb ltb : A -> A -> bool) (dflt : A) (col : nat) size idxs (d : list (list A)),
+  cover_oracle_ok eqb ltb dflt (Z.of_nat col) size idxs d = true ->
+  let classes := np_unique eqb ltb (column dflt (Z.of_nat col) d) in
+  let n := size / len classes in
+  let out := feature_cover (Z.of_nat col) idxs d in
+  0 <= n /\ len out = n * len classes /\
+  (* every output row is an input row without the hidden column *)
+  (forall k i, nth_error idxs k = Some i ->
+     exists r, 0 <= i /\ nth_error d (Z.to_nat i) = Some r /\
+               nth_error out k = Some (remove_col (Z.of_nat col) r) /\
+               (forall j, nth_error (remove_col (Z.of_nat col) r) j =
+                          nth_error r (if (j <? col)%nat then j else S j)) /\
+               ((col < length r)%nat -> length (remove_col (Z.of_nat col) r) = (length r - 1)%nat)) /\
+  (* the g-th group contributes exactly n distinct rows of that group *)
+  (forall g c, nth_error classes g = Some c ->
+     len (chunk (Z.to_nat n) g idxs) = n /\ NoDup (chunk (Z.to_nat n) g idxs) /\
+     Forall (fun i => row_in_group eqb dflt (Z.of_nat col) d c i = true) (chunk (Z.to_nat n) g idxs)).
+Proof.
+  intros A eqb ltb dflt col size idxs d H. cbv zeta.
+  destruct (cover_oracle_ok_spec _ _ _ _ _ _ _ H) as [H0 [Hn [Hl Hg]]].
+  unfold cover_n in *. repeat split.
+  - exact H0.
+  - unfold len in *. rewrite length_feature_cover. exact Hl.
+  - intros k i Hk. destruct (feature_cover_rows _ _ _ _ _ _ _ _ _ H Hk) as [r [Hi [Hr [Ho _]]]].
+    exists r. repeat split; auto.
+    + intro j. apply nth_error_remove_col.
+    + apply length_remove_col.
+  - apply (Hg g c H1).
+  - apply (Hg g c H1).
+  - apply (Hg g c H1).
+Qed.
+
+(** the classes are values of the column, represent every self-equal value, and are strictly
+    ascending for a strict total order *)
+Theorem C20_unique_classes :
+  forall (A : Type) (eqb ltb : A -> A -> bool) (l : list A),
+  (forall y, In y (np_unique eqb ltb l) -> In y l) /\
+  (forall x, In x l -> eqb x x = true -> exists y, In y (np_unique eqb ltb l) /\ eqb x y = true) /\
+  ((forall x y, eqb x y = true <-> x = y) ->
+   (forall x y z, ltb x y = true -> ltb y z = true -> ltb x z = true) ->
+   (forall x y, eqb x y = false -> ltb x y = false -> ltb y x = true) ->
+   Sorted.StronglySorted (fun a b => ltb a b = true) (np_unique eqb ltb l)).
+Proof.
+  intros. split; [apply in_np_unique|]. split; [apply np_unique_covers|].
+  intros. now apply np_unique_sorted.
+Qed.
+
+(** ** 11. container kind and column labels (Injector._preprocess / _postprocess) *)
+Theorem C20_container_preserved :
+  forall (L A : Type) (leqb : L -> L -> bool) (fr fr' : frame L A) (c : colref L) f,
+  call1 leqb fr c f = Some fr' ->
+  exists i r, resolve leqb fr c = Some i /\ f i (rows_of fr) = Some r /\
+              fr' = with_rows fr r /\ same_labels fr fr' /\ rows_of fr' = r.
+Proof. intros. now apply call1_spec. Qed.
+
+Theorem C20_container_preserved_swap :
+  forall (L A : Type) (leqb : L -> L -> bool) (fr fr' : frame L A) from to c1 c2,
+  call_swap leqb fr from to c1 c2 = Some fr' ->
+  exists i1 i2, resolve leqb fr c1 = Some i1 /\ resolve leqb fr c2 = Some i2 /\
+                same_labels fr fr' /\ rows_of fr' = feature_swap from to i1 i2 (rows_of fr).
+Proof. intros. now apply call_swap_spec. Qed.
+
+Theorem C20_container_cover :
+  forall (L A : Type) (leqb : L -> L -> bool) (eqb ltb : A -> A -> bool) (dflt : A)
+         (fr fr' : frame L A) c size idxs,
+  call_cover leqb eqb ltb dflt fr c size idxs = Some fr' ->
+  exists i, resolve leqb fr c = Some i /\
+            cover_raises eqb ltb dflt i size (rows_of fr) = false /\
+            rows_of fr' = feature_cover i idxs (rows_of fr) /\
+            match fr, fr' with
+            | Arr _, Arr _ => True
+            | DF cols _, DF cols' _ => cols' = remove_col i cols
+            | _, _ => False
+            end.
+Proof. intros. now apply call_cover_spec. Qed.
+
+(** a column name resolves to the first column carrying that label *)
+Theorem C20_column_resolution :
+  forall (L : Type) (leqb : L -> L -> bool) (l : L) (cols : list L) (i : Z),
+  index_of leqb l cols 0 = Some i ->
+  exists n l', i = Z.of_nat n /\ nth_error cols n = Some l' /\ leqb l l' = true /\
+               forall m l'', (m < n)%nat -> nth_error cols m = Some l'' -> leqb l l'' = false.
+Proof.
+  intros L leqb l cols i H. apply index_of_spec in H as [n [l' [H1 H2]]]. exists n, l'. split; [lia|auto].
+Qed.
+
+(** ** hypotheses are satisfiable *)
+Example C20_ex_eqb_spec : forall x y : Z, Z.eqb x y = true <-> x = y.
+Proof. exact Z.eqb_eq. Qed.
+
+Example C20_ex_resample :
+  let d := [[0; 10]; [1; 11]; [0; 12]; [1; 13]] in
+  pool Z.eqb Z.ltb 0 1 4 0 d = [2; 1; 3] /\
+  positions_ok (pool Z.eqb Z.ltb 0 1 4 0 d) [2; 2; 0] /\
+  resample Z.eqb Z.ltb 0 1 4 0 [2; 2; 0] d = [[0; 10]; [1; 13]; [1; 13]; [0; 12]].
+Proof.
+  cbv zeta. split; [reflexivity|]. split; [|reflexivity].
+  unfold positions_ok. repeat constructor; vm_compute; congruence.
+Qed.
+
+Example C20_ex_cover :
+  let d := [[7; 2]; [8; 0]; [9; 2]; [6; 0]; [5; 0]] in
+  cover_oracle_ok Z.eqb Z.ltb 0 1 5 [4; 1; 0; 2] d = true /\
+  feature_cover 1 [4; 1; 0; 2] d = [[5]; [8]; [7]; [9]].
+Proof. split; reflexivity. Qed.
+
+Example C20_ex_probability :
+  let pcs : list (Q * Z) := [((1 # 2)%Q, 2); ((1 # 4)%Q, 0); ((1 # 4)%Q, 1)] in
+  p_blocks NumQ pcs <> [] /\ (0 < 2) /\ (present_mass pcs == 3 # 4)%Q.
+Proof. cbv zeta. split; [discriminate|]. split; [lia|reflexivity]. Qed.
+
+Example C20_ex_swap_window :
+  inw 1 3 1 = true /\ inw 1 3 3 = false /\
+  feature_swap 1 3 0 1 [[1; 2]; [3; 4]; [5; 6]; [7; 8]] = [[1; 2]; [4; 3]; [6; 5]; [7; 8]].
+Proof. repeat split. Qed.
+
+Print Assumptions C20_shape_preserved.
+Print Assumptions C20_resample_shape.
+Print Assumptions C20_rows_outside_window_unchanged.
+Print Assumptions C20_untargeted_columns_unchanged.
+Print Assumptions C20_feature_swap_involution.
+Print Assumptions C20_feature_swap_effect.
+Print Assumptions C20_label_swap_involution.
+Print Assumptions C20_label_swap_involution_partial_equivalence.
+Print Assumptions C20_label_swap_exchanges_the_two_classes.
+Print Assumptions C20_label_join_maps_the_two_classes.
+Print Assumptions C20_shift_effect.
+Print Assumptions C20_window_is_slice.
+Print Assumptions C20_brownian_effect.
+Print Assumptions C20_brownian_walk.
+Print Assumptions C20_resampled_rows_come_from_the_window.
+Print Assumptions C20_resampled_row_exact.
+Print Assumptions C20_sampling_pool.
+Print Assumptions C20_probability_vector_sums_to_one.
+Print Assumptions C20_probability_class_mass.
+Print Assumptions C20_probability_class_mass_exact.
+Print Assumptions C20_probability_blocks_over_pool.
+Print Assumptions C20_dictionary_completion.
+Print Assumptions C20_cover.
+Print Assumptions C20_unique_classes.
+Print Assumptions C20_container_preserved.
+Print Assumptions C20_container_preserved_swap.
+Print Assumptions C20_container_cover.
+Print Assumptions C20_column_resolution.
